@@ -114,7 +114,7 @@ func NearNodes(thorough bool) []*Spec {
 }
 
 func NearPreds(thorough bool) []*Spec {
-	ids := []string{LongX + "a", LongX + "b", "a", "/a", "/t", "p", "ab", "A", "é", "text\x00abc", "blob\x00abc", "text\x00", "bool\x00true", "aimmutable", "a" + Varint16(model.T0.UnixNano())}
+	ids := []string{LongX + "a", LongX + "b", "a", "/a", "/t", "/aa", "/ab", "/a/bc", "p", "ab", "A", "é", "text\x00abc", "blob\x00abc", "text\x00", "bool\x00true", "aimmutable", "a" + Varint16(model.T0.UnixNano())}
 	if thorough {
 		ids = append(ids, "/a/b", "/", "immutable", "b", "a\x00", "float64\x00"+strings.Repeat("\x00", 8), "int64\x00"+strings.Repeat("\x00", 10), "a ", "predicate\x00a")
 	}
